@@ -125,6 +125,7 @@ def gen_cases(tier, seed):
         cases.append({"kind": "many", "shells": shells, "points": [[float(v) for v in p_] for p_ in pts], "charges": [float(v) for v in q],
                       "classes": classes + ["many-charges", "nq:%d" % N, "nsh:%d" % len(ls)], "cost": 4000 + 3 * N})
     cases += bases.dup_variants("C03", seed, tier, [c for c in cases if c.get("kind") != "many"], 11)  # one shell listed twice as the same object
+    cases += bases.argrep_variants("C03", seed, tier, cases, 9, ok=lambda c: "shells" in c and c.get("kind") in (None, "whole", "kernel", "perm", "real"))  # constructor arguments in other in-memory representations
     return cases
 
 
